@@ -2,7 +2,8 @@
    prints them as S-expressions, in exactly the syntax the Go harness uses for
    what it observed on the implementation. *)
 From Errv Require Import Base.Str Base.Sexp Redact.Markers Redact.Buffer
-     Model.Err Model.Sem Model.Details Model.Marks Model.Codec Model.Access Model.Build Model.Parse.
+     Model.Err Model.Sem Model.Details Model.Marks Model.Codec Model.Access Model.Build Model.Parse
+     Model.Report Model.Std.
 
 Fixpoint shape (e : err) : sexp :=
   let hd := [sym "n"; A (go_full_name e); A (error_text e)] in
@@ -75,6 +76,18 @@ Fixpoint follow (steps : list sexp) (e : err) : option err :=
   | _ => None
   end.
 
+Definition sexp_rframe (f : rframe) : sexp :=
+  L [A (rf_module f); A (rf_function f); A (rf_abspath f); sZ (rf_line f)].
+
+Definition sexp_frames (o : option (list rframe)) : sexp :=
+  match o with Some fs => L (List.map sexp_rframe fs) | None => sym "none" end.
+
+Definition sexp_report (r : sreport) : sexp :=
+  L [A (rp_message r);
+     L (List.map (fun x => L [A (ex_type x); A (ex_value x); A (ex_module x); sexp_frames (ex_frames x)])
+                 (rp_exceptions r));
+     A (rp_types r); sN 1].
+
 Record rstate := mkrs { rs_bs : bstate }.
 
 (* build the references of a case: ((sent N) | (path ...) | (recipe R) | (nil) | (xfer REF PROCS)) *)
@@ -87,7 +100,8 @@ Fixpoint build_ref (env : benv) (e : option err) (x : sexp) (s : bstate) {struct
     else if str_eqb k (lit "recipe") then do r <- parse_recipe a; Some (build env r s)
     else if str_eqb k (lit "path") then
       match a, e with
-      | L steps, Some e' => do t <- follow steps e'; Some (Some t, s)
+      | L steps, Some e' => Some (follow steps e', s)    (* a path that does not exist is a nil reference *)
+      | L _, None => Some (None, s)
       | _, _ => None
       end
     else None
@@ -149,6 +163,22 @@ Fixpoint eval_obs (refs : list (option err)) (n : positive) (oe : option err) (o
       on_err (fun e => L [sB (is_permission e); sB (is_exist e); sB (is_notexist e); sB (is_timeout e)])
     else if str_eqb name (lit "safedetails") then
       on_err (fun e => L (List.map sexp_sdp (get_all_safe_details e)))
+    else if str_eqb name (lit "stacks") then
+      on_err (fun e => L (List.map (fun c => sexp_frames (get_reportable_stack c)) (chain e)))
+    else if str_eqb name (lit "source") then
+      on_err (fun e => match get_one_line_source e with
+                       | Some (f, l, fn) => L [A f; sZ l; A fn]
+                       | None => sym "none"
+                       end)
+    else if str_eqb name (lit "report") then
+      (match oe with Some e => sexp_report (build_report e) | None => sym "none" end)
+    else if str_eqb name (lit "std-unwrap") then
+      on_err (fun e => match std_unwrap e with
+                       | Some u => L [A (go_full_name u); A (error_text u)]
+                       | None => sym "none"
+                       end)
+    else if str_eqb name (lit "pkg-cause") then
+      on_err (fun e => L [A (go_full_name (pkg_cause e)); A (error_text (pkg_cause e))])
     else if str_eqb name (lit "enc") then on_err (fun e => sexp_enc (encode e))
     else if str_eqb name (lit "fmt-v") then on_err (fun e => A (fmt_plain_short e))
     else if str_eqb name (lit "fmt+v") then on_err (fun e => A (fmt_plain_verbose e))
@@ -160,6 +190,24 @@ Fixpoint eval_obs (refs : list (option err)) (n : positive) (oe : option err) (o
     if str_eqb name (lit "is") then
       match args with
       | [r] => match get_ref refs r with Some x => sB (is_opt oe x) | None => bad "ref" end
+      | _ => bad "args"
+      end
+    else if str_eqb name (lit "std-is") then
+      match args with
+      | [r] => match get_ref refs r with Some x => sB (std_is_opt oe x) | None => bad "ref" end
+      | _ => bad "args"
+      end
+    else if str_eqb name (lit "std-as") then
+      match args with
+      | [t] => match parse_target t, oe with
+               | Some tg, Some e =>
+                 match std_as e tg with
+                 | Some x => L [sym "found"; A (go_full_name x); A (error_text x)]
+                 | None => sym "notfound"
+                 end
+               | Some tg, None => sym "notfound"
+               | None, _ => bad "target"
+               end
       | _ => bad "args"
       end
     else if str_eqb name (lit "isany") then
